@@ -817,7 +817,7 @@ ATTR_LITERALS = {
     # builder -> attribute name -> type fragments of the named locals it sets (one entry per place the name is recognised)
     'function': ('semantic::function::build', {'address': [['FunctionBody']], 'index': [[]], 'calling_convention': [['CallingConvention']]}, ['C05', 'C04', 'C16']),
     'type': ('semantic::type_definition::build', {'size': [['usize'], ['usize']], 'singleton': [['usize']], 'align': [['usize']], 'copyable': [['bool']], 'cloneable': [['bool']],
-                                                 'defaultable': [['bool']], 'packed': [['bool']], 'base': [['bool']], 'address': [['usize']]}, ['C01', 'C02', 'C03', 'C06', 'C07', 'C15', 'C17']),
+                                                 'defaultable': [['bool']], 'packed': [['bool']], 'base': [['bool']], 'address': [['usize']], '_': [[]]}, ['C01', 'C02', 'C03', 'C06', 'C07', 'C15', 'C17']),
     'enum': (None, {'default': [['usize']], 'copyable': [['bool']], 'cloneable': [['bool']], 'defaultable': [['bool']], 'singleton': [['usize']]}, ['C08', 'C15', 'C17']),
     'module': ('semantic::semantic_state::SemanticState::add_module', {'address': [['usize']], 'size': [['usize']], 'align': [['usize']]}, ['C15', 'C02']),
     'vftable': ('semantic::type_definition::vftable::convert_grammar_functions_to_semantic_functions', {'index': [['usize']]}, ['C04', 'C06']),
@@ -840,10 +840,19 @@ def attr_literal_table(ctx):
             continue
         others = [x[0] for k, x in ATTR_LITERALS.items() if k != tag and x[0]]
         got = {}
+        lits = set()
         for g in exclusive_family(P, root, exclude=others):
             for lit, assigned, sp in attr_assignments(g):
                 tys = sorted({g.local_ty(l) for l in assigned if l in g.names})
                 got.setdefault(lit, []).append(tys)
+            # every comparison of a name with a literal, wherever it stands (branch condition, filter closure, predicate)
+            for c in g.calls(lambda r: r['path'] and re.search(r'::(eq|ne)$', r['path'])):
+                for a in g.expr_of_call(c['term'])[2]:
+                    a = strip(a)
+                    if a[0] == 'str':
+                        lits.add(a[1])
+        for l_ in lits:
+            got.setdefault(l_, [[]])
         ok = set(got) == set(expect)
         for lit, occs in expect.items():
             have = got.get(lit, [])
